@@ -464,12 +464,12 @@ def gen_api():
         raise AnchorError("XalanObjectStackCache::reset no longer resets the pooled objects")
 
     out = HEADER.replace("srcfacts.py", "gen_api.py")
-    out += "From Coq Require Import List String ZArith.\nImport ListNotations.\nOpen Scope string_scope.\n\n"
+    out += "From Coq Require Import List ZArith.\nRequire Import XV.ApiName.\nImport ListNotations.\nOpen Scope name_scope.\n\n"
     out += "Inductive mkind := KContainer | KObjStack | KCache | KPointer | KReference | KScalar | KAllocator | KString | KObject.\n"
     out += "Inductive mclass := CSecd | CXpec | CXpecBase | CExecBase | CEngine | CTransformer.\n"
     out += "Inductive stmt := SGuard | STouchCtx | SPassRef | SOther.\n"
     out += "Inductive err_idiom := ErrClearPush | ErrResize1 | ErrNone.\n\n"
-    out += "(* (a) data members *)\nDefinition members : list (mclass * string * mkind) := [\n"
+    out += "(* (a) data members *)\nDefinition members : list (mclass * name * mkind) := [\n"
     rows = []
     for tag, _, _ in classes:
         for n, k in mem[tag]:
@@ -477,15 +477,15 @@ def gen_api():
     out += ";\n".join(rows) + "].\n\n"
     out += "(* (b) members assigned / cleared / reset, function by function (branch compiled with\n   XALAN_RECURSIVE_STYLESHEET_EXECUTION undefined) *)\n"
     out += "Definition recursive_execution_defined : bool := false.\n"
-    out += "Definition secd_reset_clears : list string := %s.\n" % coq_str_list(secd_reset)
-    out += "Definition secd_reset_calls : list string := %s.\n" % coq_str_list(secd_calls)
-    out += "Definition secd_cleanup_clears : list string := %s.\n" % coq_str_list(cleanup)
-    out += "Definition secd_cleanup_calls : list string := %s.\n" % coq_str_list(cleanup_calls)
-    out += "Definition secd_clearxpathcache_clears : list string := %s.\n" % coq_str_list(xcache)
-    out += "Definition xpec_reset_clears : list string := %s.\n" % coq_str_list(xpec_reset)
-    out += "Definition xpec_reset_calls : list string := %s.\n" % coq_str_list(xpec_calls)
-    out += "Definition engine_reset_clears : list string := %s.\n" % coq_str_list(eng_reset)
-    out += "Definition transformer_reset_nulls : list (mclass * string) := [%s].\n" % "; ".join('(%s, "%s")' % x for x in tr_nulls)
+    out += "Definition secd_reset_clears : list name := %s.\n" % coq_str_list(secd_reset)
+    out += "Definition secd_reset_calls : list name := %s.\n" % coq_str_list(secd_calls)
+    out += "Definition secd_cleanup_clears : list name := %s.\n" % coq_str_list(cleanup)
+    out += "Definition secd_cleanup_calls : list name := %s.\n" % coq_str_list(cleanup_calls)
+    out += "Definition secd_clearxpathcache_clears : list name := %s.\n" % coq_str_list(xcache)
+    out += "Definition xpec_reset_clears : list name := %s.\n" % coq_str_list(xpec_reset)
+    out += "Definition xpec_reset_calls : list name := %s.\n" % coq_str_list(xpec_calls)
+    out += "Definition engine_reset_clears : list name := %s.\n" % coq_str_list(eng_reset)
+    out += "Definition transformer_reset_nulls : list (mclass * name) := [%s].\n" % "; ".join('(%s, "%s")' % x for x in tr_nulls)
     out += "Definition transformer_reset_resets_context : bool := %s.\n" % ("true" if tr_resets_ctx else "false")
     out += "Definition ensure_reset_dtor_resets_context : bool := %s.\n" % ("true" if er_ctx else "false")
     out += "Definition ensure_reset_dtor_resets_transformer : bool := %s.\n" % ("true" if er_tr else "false")
@@ -496,7 +496,7 @@ def gen_api():
     out += "Definition dotransform_processor_declared_before_guard : bool := %s.\n\n" % ("true" if decl_before_guard else "false")
     out += "(* (d) catch clauses in source order, and how each entry point empties m_errorMessage *)\n"
     for nm, tab in (("dotransform", catches_dt), ("compile", catches_cs), ("parse", catches_ps)):
-        out += "Definition %s_catches : list (string * Z) := [%s].\n" % (nm, "; ".join('("%s", (%d)%%Z)' % x for x in tab))
+        out += "Definition %s_catches : list (name * Z) := [%s].\n" % (nm, "; ".join('("%s", (%d)%%Z)' % x for x in tab))
     out += "Definition errclear_dotransform : err_idiom := %s.\n" % idiom["doTransform"]
     out += "Definition errclear_compile : err_idiom := %s.\n" % idiom["compileStylesheet"]
     out += "Definition errclear_parse : err_idiom := %s.\n" % idiom["parseSource"]
